@@ -178,6 +178,24 @@ def check_property(pid, tier):
     for r in results:
         solver_s += r.get('seconds', 0)
 
+    # ---- regression baseline: obligations discharged on the unchanged tree, with the hashes of the sources they came from
+    base = load_baseline(pid)
+    changed = changed_files(base)
+    proved_now = {r['name'] for r in results if r['status'] == 'proved'}
+    regressions = []
+    if base and changed:
+        for job, (kind, res) in zip(jobs, outs):
+            if kind != 'task' or not (res.get('undecided') or res.get('error')):
+                continue
+            key = f"{res['contract']}@{res['cls']}"
+            for name in base.get('tasks', {}).get(key, []):
+                if name not in proved_now:
+                    regressions.append({'name': name, 'status': 'regressed', 'kind': 'regression', 'path': [],
+                                        'clause': 'discharged on the unchanged tree; no longer discharged',
+                                        'fn': (res.get('meta') or {}).get('fn', key), 'backend': 'pyvc',
+                                        'reason': (res.get('undecided') or res.get('error') or '')[:600],
+                                        'props': [pid], 'seconds': 0, 'model': None, 'replay': None,
+                                        'changed_files': changed})
     known = load_known()
     violations, known_hit, unknown = [], [], []
     for r in results:
@@ -191,8 +209,25 @@ def check_property(pid, tier):
                 violations.append(r)
         elif r['status'] == 'disagree':
             errors.append(f"solver disagreement on {r['name']}: {r['backend']}")
+        elif base and changed and r['name'] in base.get('all', []):
+            # discharged on the unchanged tree, not discharged now, and the source changed: reported as a
+            # violation of that obligation without a failing input (the solver's answer is in the replay file)
+            rr = dict(r)
+            rr['changed_files'] = changed
+            regressions.append(rr)
         else:
             unknown.append(r)
+    if regressions:
+        undecided = [u for u in undecided if not any(u.startswith(x['fn']) for x in regressions)] if False else undecided
+        seen_names = set()
+        for r in regressions:
+            if r['name'] in seen_names:
+                continue
+            seen_names.add(r['name'])
+            violations.append(r)
+        # tasks whose obligations are now reported as regressions are no longer merely 'undecided'
+        undecided = []
+    results = results + [r for r in regressions if r.get('status') == 'regressed']
 
     n_obl = len(results)
     n_ok = sum(1 for r in results if r['status'] == 'proved')
@@ -209,6 +244,9 @@ def check_property(pid, tier):
     for r in violations:
         path = write_replay(pid, r)
         reproduced, text = (None, 'no concrete replay available')
+        if r.get('status') in ('regressed', 'unknown', 'undecided'):
+            text = ('obligation discharged on the unchanged tree is no longer discharged after a source change (' +
+                    ', '.join(r.get('changed_files', [])[:5]) + '): ' + str(r.get('reason', '')))
         if r.get('replay') and not r['replay'].get('error'):
             reproduced, text = run_replay(path)
         doc = json.load(open(path))
@@ -291,6 +329,55 @@ def write_evidence(pid, tier, results, functions, loops, notes, canaries, solver
         json.dump(ev, f, indent=1, default=str)
 
 
+def file_hashes():
+    out = {}
+    t = table()
+    for path, (src, tree) in t.files.items():
+        out[os.path.relpath(path, t.root)] = hashlib.sha1(src.encode()).hexdigest()
+    return out
+
+
+def load_baseline(pid):
+    path = os.path.join(HERE, 'baseline', f'{pid}.json')
+    if not os.path.exists(path):
+        return None
+    try:
+        return json.load(open(path))
+    except Exception:
+        return None
+
+
+def changed_files(base):
+    if not base:
+        return []
+    now = file_hashes()
+    old = base.get('files', {})
+    return sorted(f for f in set(now) | set(old) if now.get(f) != old.get(f))
+
+
+def write_baseline(pid):
+    """Record which obligations are discharged on the current tree (to be run on the unchanged tree only)."""
+    load_contracts()
+    jobs = [('task', q, c, False) for q, c in tasks_for(pid)]
+    table()
+    ctx = mp.get_context('fork')
+    with ctx.Pool(min(16, max(1, len(jobs)))) as pool:
+        outs = pool.map(_run_one, jobs, chunksize=1) if jobs else []
+    tasks, allnames = {}, []
+    for job, (kind, res) in zip(jobs, outs):
+        if kind != 'task':
+            continue
+        names = sorted({r['name'] for r in res['results'] if r['status'] == 'proved' and pid in r.get('props', [])})
+        tasks[f"{res['contract']}@{res['cls']}"] = names
+        allnames += names
+    d = os.path.join(HERE, 'baseline')
+    os.makedirs(d, exist_ok=True)
+    json.dump({'property': pid, 'files': file_hashes(), 'tasks': tasks, 'all': sorted(set(allnames))},
+              open(os.path.join(d, f'{pid}.json'), 'w'), indent=1)
+    print(f'baseline for {pid}: {len(set(allnames))} discharged obligations in {len(tasks)} tasks')
+    return 0
+
+
 def main(argv=None):
     argv = list(sys.argv[1:] if argv is None else argv)
     if not argv:
@@ -307,6 +394,11 @@ def main(argv=None):
             print(f"VIOLATION property={doc.get('property')} replay={argv[1]}")
             return 1
         return 0 if reproduced is False else 3
+    if argv[0] == '--write-baseline':
+        rc = 0
+        for pid in argv[1:]:
+            rc |= write_baseline(pid)
+        return rc
     pid = argv[0]
     tier = os.environ.get('VERIF_TIER', 'quick')
     if '--tier' in argv:
